@@ -926,8 +926,21 @@ class Explorer:
         cons = [c for c, k in self.pc if not (abstraction and k == "root-def")] + list(extra)
         r, model = "unknown", None
         if second_opinion:
-            # claims are usually true and 'mostly linear': ask the SMT core first (hard time limit, own process)
-            if self._smt_subprocess(cons, min(total, 2500)) == "unsat":
+            # claims: (1) nlsat after expansion to sums of monomials (decides polynomial identities the default
+            # preprocessing does not), (2) the SMT core in its own process (fast on 'mostly linear' control claims)
+            if not self.uses_uf and not self.uses_int:
+                try:
+                    s1 = z3.Then(z3.With("simplify", som=True), "qfnra-nlsat").solver()
+                    s1.set("timeout", max(1000, total // 2))
+                    for c in cons:
+                        s1.add(c)
+                    r = str(s1.check())
+                    if r == "sat":
+                        if want_model:
+                            model = s1.model()
+                except z3.Z3Exception:
+                    r = "unknown"
+            if r == "unknown" and self._smt_subprocess(cons, min(total, 2500)) == "unsat":
                 r = "unsat"
         if r == "unknown":
             s = self._solver(total)
@@ -1133,8 +1146,10 @@ class Explorer:
         if isinstance(claim, (bool, np.bool_)):
             claim = z3.BoolVal(bool(claim))
         has_roots = any(k == "root-def" for _, k in self.pc)
+        cand = None
         if has_roots:
-            r, _ = self._check([z3.Not(claim)], abstraction=True, kind=kind, timeout_ms=timeout_ms, second_opinion=True)
+            r, cand = self._check([z3.Not(claim)], abstraction=True, kind=kind, timeout_ms=timeout_ms, second_opinion=True,
+                                  want_model=True)
             if r == "unsat":
                 return "proved", None
         r, m = self._check([z3.Not(claim)], want_model=True, kind=kind, timeout_ms=timeout_ms, second_opinion=True)
@@ -1147,7 +1162,10 @@ class Explorer:
         m = self._concretise_search(z3.Not(claim), kind)
         if m is not None:
             return "refuted", m
-        return "unknown", None
+        # still undecided: a model of the linear abstraction is handed back as a *candidate* (it satisfies every
+        # polynomial branch condition; only the root variables are unconstrained).  It counts for nothing unless the
+        # real code violates the claim on it.
+        return "unknown", cand
 
     def _free_inputs(self, extra):
         seen = {}
